@@ -107,6 +107,9 @@ func (c *clipperBase) recursiveCheckOwners(outrec *OutRec, polypath *PolyPathBas
 		return
 	}
 
+	if outrec.owner == nil {
+		vEvent("treeNoOwner", nil, outrec.path...)
+	}
 	for outrec.owner != nil {
 		if outrec.owner.splits != nil && c.checkSplitOwner(outrec, outrec.owner.splits) {
 			break
@@ -116,6 +119,9 @@ func (c *clipperBase) recursiveCheckOwners(outrec *OutRec, polypath *PolyPathBas
 			break
 		}
 		outrec.owner = outrec.owner.owner
+		if outrec.owner == nil {
+			vEvent("treeOwnerExhausted", nil, outrec.path...)
+		}
 	}
 
 	if outrec.owner != nil {
